@@ -11,7 +11,7 @@
 //   encode k <delta>      (single call, out_size = lzma_index_size + delta)   -> "<ret> <out_pos> <hex>"
 //   encodes k <chunk>     (lzma_index_encoder + lzma_code, out chunks)        -> "<ret> <total_out> <hex>"
 //   decode k <memlimit> <hex>            (lzma_index_buffer_decode)           -> "<ret> <in_pos> <memlimit> S(k)"
-//   decodes k <memlimit> <chunk> <hex>   (lzma_index_decoder + lzma_code)     -> "<ret> <total_in> <memusage> S(k)"
+//   decodes k <memlimit> <chunk> <hex>   (lzma_index_decoder + lzma_code)     -> "<ret> <total_in> <memusage if MEMLIMIT_ERROR else -> S(k)"
 //   memusage <streams> <blocks>
 //   iter k <mode>         full iteration with a fresh iterator, items separated by " | "
 //   locate k <target>     fresh iterator                                       -> "miss" | item
@@ -232,7 +232,9 @@ int main(void)
 			lzma_end(&strm);
 			drop(k);
 			idx[k] = ni;
-			printf("%d %" PRIu64 " %" PRIu64 " ", (int)r, strm.total_in, mu); put_sum(idx[k]); printf("\n");
+			printf("%d %" PRIu64 " ", (int)r, strm.total_in);
+			if (r == LZMA_MEMLIMIT_ERROR) printf("%" PRIu64 " ", mu); else printf("- ");
+			put_sum(idx[k]); printf("\n");
 			free(in);
 		} else if (!strcmp(op, "memusage") && n == 3) {
 			printf("%" PRIu64 "\n", lzma_index_memusage(hp_u64(l.tok[1]), hp_u64(l.tok[2])));
